@@ -649,6 +649,7 @@ func c17EnumerateTCP(sh *evidence.Shard) {
 		fullMax, cutsPrimary, cutsOther = 15, 3, 3
 	}
 	p.Alphabet = map[string]any{
+		"port_spellings": "every recognised template x 3 hosts x ports {0,65535,65536,65616,131152,-1,0443,+80,000080,4294967376} (nil filter, unsplit stream): the port string must come out as it went in",
 		"templates": names,
 		"splits": fmt.Sprintf("all 2^(n-1) chunkings for streams of <= %d bytes; longer streams: every chunking with <= %d cuts (3 primary configurations) / <= %d cuts (the other hooked configurations) over {1..8, each structural boundary -1/0/+1, n-1}; the header-over-limit template: <= 1 / 0 cuts; thorough tier additionally: every <= 2-cut chunking over every offset of the first and the last 64 bytes",
 			fullMax, cutsPrimary, cutsOther),
@@ -702,6 +703,28 @@ func c17EnumerateTCP(sh *evidence.Shard) {
 			}
 		}
 		return r
+	}
+	// "the port never changes", for every spelling of the port a request may carry: the server
+	// passes the request address as the client wrote it, and strconv.Atoi (what Check uses) accepts
+	// more than the canonical 0..65535. Unsplit stream, nil filter, every recognised template.
+	// (Added after the independently seeded change C17-6: the rewritten destination was rebuilt
+	// from the port narrowed to uint16.)
+	for ti := range tmpls {
+		t := &tmpls[ti]
+		if t.Heavy || t.ExpHost == "" || stop {
+			continue
+		}
+		for _, port := range []string{"0", "65535", "65536", "65616", "131152", "-1", "0443", "+80", "000080", "4294967376"} {
+			for _, host := range []string{"10.1.2.3", "2001:db8::7", "orig.example.net"} {
+				item++
+				if !env.Mine(item) {
+					continue
+				}
+				c := c17TCPCase{Template: t.Name, Data: t.Data, ExpHost: t.ExpHost, NeedLen: t.NeedLen, Either: t.Either, FireAt: -1,
+					Filter: "nil", RD: true, Addr: net.JoinHostPort(host, port), End: c17EndEOF}
+				run1(&c)
+			}
+		}
 	}
 	for ti := range tmpls {
 		t := &tmpls[ti]
